@@ -22,6 +22,7 @@ EXPLANATION = (
     ' (Y11) a failed sanitisation is noticed; (Y12) no result table is evicted between storing and reading an entry in one call; (Y13) the input is canonicalised before the first functional-group query - Y4/Y5 are only evaluated when it is not.'
     ' (Y14) the oxygen that gives up a hydrogen is tested to carry one; (Y15) a sequence derived from the group indices is not unpacked into a fixed number of names without a length test; Y11 was withdrawn (no failing input after the donor test).'
     ' (Y13) counts as canonicalised only after a sanitising parse (RDKit CanonSmiles / MolToSmiles, or a helper that does not parse with sanitize=False). (Y16) nothing keyed by the atom indices of one functional-group query is kept across a rewrite.'
+    ' (Y17) a front end that standardises a column reports each result next to its compound (pandas label-alignment rule).'
 )
 ASSUMPTIONS = ["atom indices reported by the functional-group query refer to the SMILES that was queried"]
 
